@@ -25,11 +25,79 @@ def extra_checks(ctx):
     import session_props as SP
     n = 6 if ctx.quick else 80
     fails = SP.campaign(ctx, WANT, n, policies_per_scenario=2)
+    fails += refused_action_sessions(ctx, 6 if ctx.quick else 60)
     if ctx.shard == 0:
         ctx.samples.append({'note': 'a case is (scenario, scheduling policy); four event streams are compared per case'})
     return fails
 
 
+def refused_check(sc, fault, pdesc, workdir, driver):
+    import session
+    import session_check as SC
+    import session_props as SP
+    model = SC.model_session(driver, sc)
+    r = session.run_session(sc, SP.make_policy(pdesc), workdir, faults=fault, max_steps=400000)
+    by_client = {c[0]: c for c in r.conns}
+    for p in SP.SEATS:
+        c = by_client.get(f'client-{p}')
+        got = SC.stream_messages(c[1]) if c else []
+        exp = model[f'X.stream {p}'].split(',') if model[f'X.stream {p}'] else []
+        ge = SP.stream_events(got[1:])
+        while ge and ge[-1][0] == 'other' and ge[-1][1].lower() in ('illegal bid', 'error detected'):
+            ge.pop()
+        ee = SP.stream_events(exp)
+        if ge != ee[:len(ge)]:
+            j = next((j for j, (a, b) in enumerate(zip(ge, ee)) if a != b), min(len(ge), len(ee)))
+            return [{'key': 'told-about-a-refused-action', 'kind': 'counterexample', 'scenario': sc, 'policy': pdesc,
+                     'fault': fault, 'schedule': r.schedule,
+                     'diff': {'seat': p, 'index': j, 'impl': list(ge[j]) if j < len(ge) else None,
+                              'spec': list(ee[j]) if j < len(ee) else None, 'refused': fault['text']}}], r.steps
+    return [], r.steps
+
+
+def refused_action_sessions(ctx, n):
+    """sessions in which one seat sends an action the table manager refuses (an illegal call, a card it does not hold, a
+    card already played): nobody is entitled to be told about an action that was not accepted — every seat's event stream
+    must be a PREFIX of the stream the specification sends in the undisturbed session (the notices of the abort itself,
+    `illegal bid` / `error detected`, apart)"""
+    import random
+    import common
+    import pC13
+    import session
+    import session_check as SC
+    import session_props as SP
+    driver = common.ModelDriver()
+    rng = random.Random(f'C10-refused/{ctx.seed}/{ctx.shard}')
+    fails = []
+    for i in range(n):
+        sc = session.gen_scenario(rng, rng.choice([1, 2]), fancy=True)
+        pts = [pt for pt in pC13.abort_points(sc) if pt[3] in ('illegal_call', 'card_not_held', 'card_already_played')]
+        if not pts:
+            continue
+        pt = rng.choice(pts)
+        fault = pC13.fault_of(pt)
+        pdesc = {'kind': 'random', 'seed': rng.randrange(1 << 30)}
+        ctx.count('_cases')
+        ctx.count('refused_action_sessions')
+        ctx.count('refused_' + pt[3])
+        f, steps = refused_check(sc, fault, pdesc, ctx.workdir, driver)
+        ctx.count('_evals', steps)
+        fails += f
+        if len(fails) > 3:
+            break
+    return fails
+
+
 def replay(record):
     import session_props as SP
+    if record.get('fault'):
+        import os
+        import common
+        workdir = os.path.join(common.VERIF, '.work')
+        os.makedirs(workdir, exist_ok=True)
+        f, steps = refused_check(record['scenario'], record['fault'], record['policy'], workdir, common.ModelDriver())
+        print(f'replayed {steps} steps')
+        for d in f:
+            print('DIFF', d['diff'])
+        return 1 if f else 0
     return SP.replay(record, WANT)
